@@ -13,6 +13,7 @@ import (
 	"fmt"
 	"math"
 	"os"
+	"reflect"
 	"runtime"
 	"runtime/debug"
 	"testing"
@@ -202,8 +203,120 @@ func Note(s string) { res.Notes = append(res.Notes, s) }
 
 // Monitors: approximated natively.
 func AllocBudget(n int64) { allocBudget = n }
-func Freeze(roots ...any) {}
-func Unfreeze()           {}
+// Freeze / Unfreeze: natively the frozen-object monitor is approximated by a
+// deep structural hash of everything reachable from the roots (unexported
+// fields included) taken at Freeze and compared at Unfreeze; a difference is
+// the failure "frozen-write".
+var (
+	frozenRoots []any
+	frozenHash  uint64
+)
+
+func Freeze(roots ...any) {
+	frozenRoots = roots
+	frozenHash = deepHashAll(roots)
+}
+
+func Unfreeze() {
+	if frozenRoots == nil {
+		return
+	}
+	if h := deepHashAll(frozenRoots); h != frozenHash {
+		res.Fails = append(res.Fails, failRec{ID: "frozen-write", Known: append([]string{}, known...), Msg: "state reachable from the frozen roots changed"})
+	}
+	frozenRoots = nil
+}
+
+func deepHashAll(roots []any) uint64 {
+	h := uint64(1469598103934665603)
+	seen := map[uintptr]int{}
+	for _, r := range roots {
+		h = deepHash(reflect.ValueOf(r), seen, h)
+	}
+	return h
+}
+
+func mix(h, x uint64) uint64 { return (h ^ x) * 1099511628211 }
+
+func deepHash(v reflect.Value, seen map[uintptr]int, h uint64) uint64 {
+	if !v.IsValid() {
+		return mix(h, 0x9e37)
+	}
+	switch v.Kind() {
+	case reflect.Bool:
+		if v.Bool() {
+			return mix(h, 3)
+		}
+		return mix(h, 2)
+	case reflect.Int, reflect.Int8, reflect.Int16, reflect.Int32, reflect.Int64:
+		return mix(h, uint64(v.Int()))
+	case reflect.Uint, reflect.Uint8, reflect.Uint16, reflect.Uint32, reflect.Uint64, reflect.Uintptr:
+		return mix(h, v.Uint())
+	case reflect.Float32, reflect.Float64:
+		return mix(h, math.Float64bits(v.Float()))
+	case reflect.String:
+		s := v.String()
+		h = mix(h, uint64(len(s)))
+		for i := 0; i < len(s); i++ {
+			h = mix(h, uint64(s[i]))
+		}
+		return h
+	case reflect.Ptr:
+		if v.IsNil() {
+			return mix(h, 5)
+		}
+		p := v.Pointer()
+		if n, ok := seen[p]; ok {
+			return mix(h, uint64(1000+n)) // identity by first-visit order
+		}
+		seen[p] = len(seen)
+		return deepHash(v.Elem(), seen, mix(h, 7))
+	case reflect.Interface:
+		if v.IsNil() {
+			return mix(h, 11)
+		}
+		e := v.Elem()
+		h = mix(h, uint64(len(e.Type().String())))
+		return deepHash(e, seen, h)
+	case reflect.Struct:
+		for i := 0; i < v.NumField(); i++ {
+			if t := v.Type(); t.PkgPath() == "sync" || t.PkgPath() == "sync/atomic" {
+				continue
+			}
+			h = deepHash(v.Field(i), seen, mix(h, uint64(i)))
+		}
+		return h
+	case reflect.Slice:
+		if v.IsNil() {
+			return mix(h, 13)
+		}
+		fallthrough
+	case reflect.Array:
+		h = mix(h, uint64(v.Len()))
+		for i := 0; i < v.Len(); i++ {
+			h = deepHash(v.Index(i), seen, h)
+		}
+		return h
+	case reflect.Map:
+		if v.IsNil() {
+			return mix(h, 17)
+		}
+		var acc uint64 // order independent
+		it := v.MapRange()
+		for it.Next() {
+			e := deepHash(it.Key(), map[uintptr]int{}, 1469598103934665603)
+			e = deepHash(it.Value(), map[uintptr]int{}, e)
+			acc += e
+		}
+		return mix(mix(h, uint64(v.Len())), acc)
+	case reflect.Func, reflect.Chan, reflect.UnsafePointer:
+		if v.IsNil() {
+			return mix(h, 19)
+		}
+		return mix(h, 23)
+	}
+	return h
+}
 
 // Symbolic reports whether the harness runs inside the symbolic engine.
 func Symbolic() bool { return false }
@@ -237,7 +350,7 @@ func Replay(t *testing.T, pkg string, fns map[string]func()) {
 		if f == nil {
 			r.Mismatch = "harness not found: " + w.Harness
 		} else {
-			cur, pos, res, known, allocBudget = w, 0, r, nil, 0
+			cur, pos, res, known, allocBudget, frozenRoots = w, 0, r, nil, 0, nil
 			func() {
 				defer func() {
 					if p := recover(); p != nil {
